@@ -217,4 +217,18 @@ SPECS = {
         "real": ["all built-in environments incl. diffrax solves and mjx.step, wrappers over them, spaces' contains/sample"],
         "stub": ["adversary action schedule"],
     },
+    "C20": {
+        "scenarios": [{"name": "g1", "runs": {"quick": 6, "thorough": 1000000}, "chunks": {"quick": 1, "thorough": 1}}],
+        "budget_s": {"quick": 1200, "thorough": 3000},
+        "rule": "one evaluation = one seeded run: (task classes) K vmapped initial() states under K keys plus an auto-reset rollout of L control steps "
+        "under TimeLimit(6) through env.step — at every reset event (explicit and automatic) the four randomised model fields lie within nominal x range, "
+        "every other model leaf is bit-identical to the nominal model, command and gait frequency lie within range (zero command for standing tasks), "
+        "stored kinematics equal mjx.forward of the stored configuration; at every control step both phases lie in [-pi, pi], stay half a cycle apart and "
+        "advance by 2*pi*f*dt; (clock classes) the phase clock alone for 2e5..1e6 ticks per drawn (frequency, dt) and the foot-height profile on a "
+        "4001-point phase grid; non-trivial = a reset event or a phase wrap occurred; distinct = distinct (class, fired event kinds, variant)",
+        "assumptions": ["pi taken as float32 pi with slack 1e-6; half-cycle slack 1e-3 in the clock runs (measured drift 2.4e-7), 1e-4 in episodes",
+                        "quick tier: default constructor ranges only; thorough tier adds a constructor swarm incl. degenerate lo == hi ranges"],
+        "real": ["lerax G1Locomotion / G1Standing / G1Standup initial, step, randomize_*, gait helpers, mjx.forward / mjx.step, TimeLimit"],
+        "stub": ["adversary actions (uniform samples or a held bound corner)"],
+    },
 }
